@@ -268,6 +268,10 @@ impl<H: Hist> Spec for PoolSpec<H> {
                 let (mut a, b) = (t.h[*i].clone(), t.h[*j].clone());
                 let (da, db) = (a.dbg(), b.dbg());
                 let compatible = edges_equal(&t.edges[*i], &t.edges[*j]);
+                // numerically equal but not bit-identical (0.0 against -0.0): "identical edges" can be
+                // read either way, so both outcomes are accepted — the bin-wise sum, or a panic that
+                // leaves both operands unchanged
+                let ambiguous = compatible && bits(&t.edges[*i]) != bits(&t.edges[*j]);
                 // `a` is borrowed by the closure, so its state after a panic remains observable
                 let r = guarded(|| {
                     if is_merge {
@@ -286,6 +290,12 @@ impl<H: Hist> Spec for PoolSpec<H> {
                         if b.dbg() != db {
                             t.fault = Some((format!("hist.{opname}:modifies-argument"), format!("{}: argument was {db}, is {}", H::NAME, b.dbg())));
                         }
+                    }
+                    (true, Err(_)) if ambiguous => {
+                        if a.dbg() != da || b.dbg() != db {
+                            t.fault = Some((format!("hist.{opname}:mutates-before-panic"), format!("{}: after the panic operands are {} / {}, were {da} / {db}", H::NAME, a.dbg(), b.dbg())));
+                        }
+                        t.h[*i] = a;
                     }
                     (true, Err(m)) => t.fault = Some((format!("hist.{opname}:panics-on-identical-edges"), format!("{}: {da} {opname} {db} panicked: {m}", H::NAME))),
                     (false, Ok(())) => t.fault = Some((format!("hist.{opname}:accepts-different-edges"), format!("{}: {da} {opname} {db} did not panic", H::NAME))),
